@@ -1,0 +1,63 @@
+//! Verification hooks (only with feature `isographlabs_isograph_verif`): access to the
+//! crate-private artifact planning / writing functions, and a fault-injection point in
+//! `apply_file_system_operations`.
+
+use std::{cell::Cell, path::Path};
+
+use artifact_content::FileSystemState;
+use common_lang_types::{
+    ArtifactPathAndContent, FileSystemOperation, LocationFreeDiagnostic,
+    LocationFreeDiagnosticResult,
+};
+
+thread_local! {
+    /// `Some(k)`: the k-th next operation (counted from 0 over the following iterations of
+    /// `apply_file_system_operations` on this thread) fails instead of being performed.
+    static FAULT_IN: Cell<Option<usize>> = const { Cell::new(None) };
+}
+
+/// Arm (`Some(k)`) or disarm (`None`) the fault counter of the current thread.
+pub fn arm_fault(k: Option<usize>) {
+    FAULT_IN.with(|c| c.set(k));
+}
+
+/// Whether a fault is still armed on the current thread (it disarms itself when it fires).
+pub fn fault_armed() -> bool {
+    FAULT_IN.with(|c| c.get().is_some())
+}
+
+/// Consulted at the top of each loop iteration of `apply_file_system_operations`.
+pub(crate) fn fault_point() -> Option<LocationFreeDiagnostic> {
+    FAULT_IN.with(|c| match c.get() {
+        None => None,
+        Some(0) => {
+            c.set(None);
+            Some(LocationFreeDiagnostic::from(
+                "verif: injected I/O fault".to_string(),
+            ))
+        }
+        Some(k) => {
+            c.set(Some(k - 1));
+            None
+        }
+    })
+}
+
+pub fn get_file_system_operations(
+    paths_and_contents: &[ArtifactPathAndContent],
+    artifact_directory: &Path,
+    file_system_state: &mut Option<FileSystemState>,
+) -> Vec<FileSystemOperation> {
+    crate::write_artifacts::get_file_system_operations(
+        paths_and_contents,
+        artifact_directory,
+        file_system_state,
+    )
+}
+
+pub fn apply_file_system_operations(
+    operations: &[FileSystemOperation],
+    artifacts: &[ArtifactPathAndContent],
+) -> LocationFreeDiagnosticResult<usize> {
+    crate::write_artifacts::apply_file_system_operations(operations, artifacts)
+}
